@@ -2696,6 +2696,12 @@ class Evaluator:
         if typ is not None and typ != "none":
             if not (isinstance(typ, tuple) and typ[0] == "union" and "none" in typ[1]):
                 return FALSE
+        if typ is None and x[0] == "attr" and isinstance(x[2], str):
+            # a field whose every declaration in the repository has a non-optional type (Fraction.numerator: Expression) is not None,
+            # whichever of those classes the object turns out to be
+            anns = [self.parse_ann(k.module, k.fields[x[2]]) for k in self.model.classes.values() if x[2] in getattr(k, "fields", {})]
+            if anns and all(a is not None and a != "none" and not (isinstance(a, tuple) and a[0] == "union" and "none" in a[1]) for a in anns):
+                return FALSE
         return ("isnone", x)
 
     # -------------------------------------------------------------- comprehensions
@@ -3128,6 +3134,8 @@ class Evaluator:
                closure: dict | None = None, call_ast: ast.Call | None = None):
         if (f.qname in self.stack or f.qname in self.recurse_as) and closure is None:
             t = ("recurse", f.qname, tuple(args), tuple(sorted(kwargs.items())))
+            if t not in self.types:
+                self.set_type(t, self.parse_ann(f.module, f.node.returns))  # what the routine declares to return (never None unless it says so)
             return [(state, t)]
         if len(self.stack) >= self.max_depth:
             self.unknowns.append((func.qname, line, f"depth:{f.qname}"))
